@@ -10,4 +10,5 @@ func init() {
 	mut("C17", "exported-not-removed", "har/har.go", "\t\t\tes = append(es, curr)\n\t\t\tdelete(l.entries, curr.ID)\n", "\t\t\tes = append(es, curr)\n", "C17.R4", "completed entries")
 	mut("C17", "export-marks-exported", "har/har.go", "\t\tcurr = curr.next\n\t\tes = append(es, curr)\n\t\tif curr == l.tail {\n", "\t\tcurr = curr.next\n\t\tes = append(es, curr)\n\t\tif curr.Response != nil {\n\t\t\tdelete(l.entries, curr.ID)\n\t\t}\n\t\tif curr == l.tail {\n", "C17.R5", "writers of entries")
 	mut("C17", "ring-not-closed", "har/har.go", "\t\tl.tail = prev\n\t\tl.tail.next = first\n", "\t\tl.tail = prev\n", "C17.R4", "closed into a ring")
+	mut("C17", "ring-closed-onto-last-walked", "har/har.go", "\t\tl.tail.next = first\n", "\t\tl.tail.next = curr\n", "C17.R4", "first pending")
 }
